@@ -35,13 +35,13 @@ def cases(draw, max_nodes):
     use_reg = draw(st.sampled_from([False, False, True]))
     serial_many = not use_reg and draw(st.sampled_from([True, False, False, False]))
     if use_reg:
-        g = specs.Gen(draw, registry=True, opaque=False, failures=draw(st.sampled_from([0, 3, 6])), lits=2, late=True)
+        g = specs.Gen(draw, registry=True, opaque=False, failures=draw(st.sampled_from([0, 3, 6])), lits=2, late=True, exotic=True)
         n = draw(st.integers(2, max_nodes))
         while len(g.nodes) < n:
             g.add_any()
         spec = {"nodes": g.nodes, "output": g.output()}
     else:
-        spec = draw(specs.plan_specs(max_nodes=max_nodes, min_nodes=2, opaque=False, lits=2,
+        spec = draw(specs.plan_specs(max_nodes=max_nodes, min_nodes=2, opaque=False, lits=2, exotic=True,
                                      failures=8 if serial_many else draw(st.sampled_from([3, 5, 8]))))
         if draw(st.booleans()):
             spec["output"] = common.all_refs_output(spec, lits=draw(st.booleans()))
